@@ -144,7 +144,7 @@ def naming_scenarios(with_clone=True):
         for policy in ("DEFAULT", "EDIF"):
             for kind, (pk, create, add, remove, bulk) in _SCOPE.items():
                 name = "N-%s-%s" % (kind, policy)
-                opsl = [create, add, remove, bulk, "element.name=", "element.del_name",
+                opsl = [create, create.replace(".noref", "") + ".props", add, remove, bulk, "element.name=", "element.del_name",
                         "element.setitem", "element.delitem", "element.pop", "clone"]
                 _NAMING[name] = Scenario(
                     name, seeds.seed_names(kind), opsl,
